@@ -650,3 +650,24 @@ CHECKS["C12"]["harnesses"].append(
      "configs_quick": ["single"], "configs_thorough": ["single", "follow"], "map_permute": 3,
      "quick": {"params": {"budget": 0}, "sample_models": 12, "sample_every": 41}, "thorough": {"params": {"budget": 1}, "sample_models": 30, "sample_every": 301},
      "what": "12 @defer families on the generated executor, every completion order of groups, payloads read only after the whole sequence arrived (as a queueing transport does): each is still the JSON it was, the merge equals the reference (shared with C13)"})
+
+# round 13
+CHECKS["C15"]["harnesses"].append(
+    dict(_HTTP, harness="Harness_C15_server", setup="Setup_C15_server", reach=["c15.server"], workers=8, tag="-cancelled",
+         quick={"params": {"hist": 2, "cancelled": 1}, "sample_models": 20, "sample_every": 11}, thorough={"params": {"hist": 3, "texts": 4, "cancelled": 1}, "sample_models": 30, "sample_every": 97, "workers": 14},
+         what="the same histories with every request arriving on an already cancelled context: the verdict on text and hash, what executes and what the registry holds are unchanged"))
+CHECKS["C09"]["harnesses"].append(
+    {"pkg": "graphql/handler/extension", "harness": "Harness_C15_apq", "workers": 4, "quick": {"sample_models": 60},
+     "reach": ["apq.noext", "apq.hit", "apq.notfound", "apq.registered", "apq.mismatch"],
+     "what": "a request carrying a text executes that text or nothing: AutomaticPersistedQuery.MutateOperationParameters over 4 registry pre-states x 3 texts x 11 extension shapes never replaces a text the request carries (shared with C15)"})
+CHECKS["C09"]["harnesses"].append(
+    dict(_HTTP, harness="Harness_C15_server", setup="Setup_C15_server", reach=["c15.server"], workers=8,
+         quick={"params": {"hist": 2}, "sample_models": 20, "sample_every": 11}, thorough={"params": {"hist": 3, "texts": 4}, "sample_models": 30, "sample_every": 97, "workers": 14},
+         what="histories of 2 [3] HTTP requests through one Server with the persisted-query registry: a request carrying a text executes exactly that text or is refused, a hash-only request executes exactly the text registered under it, whatever was registered before (shared with C15)"))
+CHECKS["C03"]["harnesses"].append(
+    {"pkg": "graphql/executor", "harness": "Harness_C03_history", "setup": "Setup_C03_history", "reach": ["c03.history.accepted", "c03.history.refused"], "workers": 8, "quick": {"sample_models": 30, "sample_every": 7},
+     "what": "one executor with a query cache (map / LRU) serves two requests of the 14-request corpus in a row (same text under another operation name or variables, or another text; the first dispatched or not): the second is accepted iff valid, as the operation it names, on the whole document it sent; nothing runs for a refused one"})
+CHECKS["C05"]["harnesses"].append(
+    {"probe": "core", "harness": "Harness_C05_streamCancel", "setup": "Setup_C05_streamCancel", "reach": ["c05.streamcancel"], "workers": 6, "sched_confirm": True, "native_retries": 300,
+     "configs_quick": ["single", "follow"], "configs_thorough": ["single", "follow", "wl2"], "quick": {"sample_models": 8, "sample_every": 3},
+     "what": "generated subscription field over a live source (0..2 buffered events, channel never closed by the resolver), k responses taken, then the context cancelled, every select choice: the response function returns nil after at most the buffered events, no task left"})
